@@ -134,6 +134,36 @@ Fixpoint command_recv (fuel : nat) (expected wait : list text) (ls : list text) 
       end
   end.
 
+(* successive parse_response calls on ONE stream until it is exhausted (ConnectionResetError);
+   every result is reported without its rest: the rest is what the next call starts from *)
+Fixpoint parse_seq (fuel : nat) (ls : list text) : list presult :=
+  match fuel with
+  | O => []
+  | S f =>
+      match parse_response ls with
+      | POk c i rest => POk c i [] :: parse_seq f rest
+      | PStatusErr c cc i rest => PStatusErr c cc i [] :: parse_seq f rest
+      | PReset => [PReset]
+      end
+  end.
+
+(* successive command(None, expected, wait) calls on ONE stream: each starts from what the
+   previous one left; a StatusCodeError leaves the stream usable, a reset ends the session.
+   Every result but the last is reported without its rest. *)
+Fixpoint command_seq (fuel : nat) (cmds : list (list text * list text)) (ls : list text)
+  : list cresult :=
+  match cmds with
+  | [] => []
+  | (e, w) :: cs =>
+      match command_recv fuel e w ls with
+      | COk c i rest =>
+          match cs with [] => [COk c i rest] | _ => COk c i [] :: command_seq fuel cs rest end
+      | CStatusErr rest =>
+          match cs with [] => [CStatusErr rest] | _ => CStatusErr [] :: command_seq fuel cs rest end
+      | r => [r]
+      end
+  end.
+
 (* Server.parse_command on one line (already split off by readline) *)
 Definition parse_command (line : text) : option (text * text) :=
   match line with
@@ -179,5 +209,12 @@ Definition run_framing (fn : Z) (a : sx) : sx :=
          | Some (c, r) => sx_ok (L [sx_of_text c; sx_of_text r])
          | None => sx_err 2
          end
+  | 5 => let s := split_lines (text_of_sx (nth_sx 0 a)) in
+         L (map sx_of_presult (parse_seq (S (length s)) s))
+  | 6 => (* [(expected, wait); ...] stream *)
+         let s := split_lines (text_of_sx (nth_sx 1 a)) in
+         let cmds := map (fun c => (texts_of_sx (nth_sx 0 c), texts_of_sx (nth_sx 1 c)))
+                         (list_of_sx (nth_sx 0 a)) in
+         L (map sx_of_cresult (command_seq (S (length s)) cmds s))
   | _ => sx_err 99
   end.
